@@ -1404,6 +1404,8 @@ class MethodTr:
         if isinstance(a, ast.BinOp) and isinstance(a.op, ast.Pow):
             self.param("cpowi", "Cx α → Int → Cx α")
             return f"(cpowi {self.cx_val(a.left)} {self.iexpr(a.right)})"
+        if isinstance(a, ast.Name) and lean_ident(a.id) not in self.locals and lean_ident(a.id) not in self.layout:
+            return self.param(lean_ident(a.id), "Cx α")      # a complex argument of the method itself (e.g. `expiβ` of `Wigner.d`)
         raise TranslationError(f"{self.name}: complex argument {ast.unparse(a)}")
 
     def call(self, c, assigned=None):
@@ -1472,6 +1474,9 @@ class MethodTr:
                     lines.append(self.call(v, assigned=t))
                 elif isinstance(v, ast.Subscript) and isinstance(v.value, ast.Name) and nfkc(ast.unparse(v.slice)) == "i_R":
                     self.alias[t] = self.param(lean_ident(v.value.id) + "_row", "Nat")
+                elif isinstance(v, ast.IfExp) and nfkc(ast.unparse(v.test)) == "out is not None" and nfkc(ast.unparse(v.body)) == "out" \
+                        and nfkc(ast.unparse(v.orelse)).startswith("np.zeros("):
+                    self.alias[t] = self.param(t, "Nat")        # the caller's `out`, or a fresh array: an array id of its own
                 elif isinstance(v, ast.BinOp):
                     lines.append(f"  let {t} : Cx α := {self.cx_val(v)}")
                     self.locals[t] = CX
@@ -1536,6 +1541,12 @@ def generate_methods(fns, gen_dir, write_if_changed):
             raise TranslationError(f"Wigner.{meth}: workspace selection not found")
         check_ws_selection(fd, sel[0])
         jobs.append((lname, rotor_loop(fd, fd.body), doc))
+    fd = find_function(wtree, "d", "Wigner")
+    isel = [i for i, s in enumerate(fd.body) if isinstance(s, ast.If) and nfkc(ast.unparse(s.test)) == "workspace is not None"]
+    if len(isel) != 1 or not (isinstance(fd.body[-1], ast.Return) and nfkc(ast.unparse(fd.body[-1])) == "return d"):
+        raise TranslationError("Wigner.d: workspace selection / return not found")
+    check_ws_selection(fd, fd.body[isel[0]])
+    jobs.append(("Wigner_d_body", fd.body[isel[0] + 1:-1], "the body of `Wigner.d` after the workspace selection"))
     fd = find_function(wtree, "evaluate", "Wigner")
     jobs.append(("Wigner_evaluate_rotor", rotor_loop(fd, horner_branch(fd, lambda t: t == "horner")),
                  "the loop body of the Horner branch of `Wigner.evaluate` (one rotor: one column of the output)"))
@@ -1546,7 +1557,7 @@ def generate_methods(fns, gen_dir, write_if_changed):
         txt, params = MethodTr(fns, layout, lname, stmts, doc).translate()
         out.append(txt)
         sig[lname] = params
-        if lname != "Wigner_rotate_rotor":
+        if lname not in ("Wigner_rotate_rotor", "Wigner_d_body"):
             # the loop itself: `for i_R in range(quaternions.shape[0])`; row i_R of the input, row / column i_R of the output (its own array id)
             per = {"quaternions_row": "Int → Int → α", "function_values_row": "Int → Nat", "function_values_col": "Int → Nat"}
             if sum(1 for n, _ in params if n in per) != 2:
